@@ -10,13 +10,15 @@ PROP = dict(
              shards_quick=8, shards_thorough=16, timeout_quick=400, timeout_thorough=1500),
     ],
     rule=("A case is one value tree; each tree is evaluated under all 64 SerializeOption masks (evaluations count tree x mask). Trees "
-          "come from (i) a fixed list - boundary floats (1e20, 2e6, 1e-7, 999999.5, DBL_MAX, DBL_MIN, +-0.0 ...), INT64_MIN/MAX, every "
+          "come from (i) a fixed list - boundary floats (1e20, 2e6, 1e-7, 999999.5, DBL_MAX, DBL_MIN, +-0.0 ...), INT64_MIN/MAX, every integer "
+          "around a change of the digit count in either radix: +-(10^k + d) for k = 1..18 and +-(16^k + d) for k = 1..15 with every |d| <= 64 "
+          "(thorough: |d| <= 5000), INT64_MAX - d and INT64_MIN + d for d <= 128 (lists of 129 integers), every "
           "byte value as a one-byte string and key, the 256-byte string, empty containers, each of ~115 well-known multi-byte sequences "
           "(UTF-8 BOM, U+2028/U+2029, NBSP, NEL, first/last code point of every UTF-8 length, U+FFFD, non-characters, emoji, CESU-8 "
           "surrogates, overlong / out-of-range / truncated UTF-8, UTF-16 BOMs, CRLF, ESC[ sequences, C1 controls, </script> and other "
           "markup, texts that look like \\u / \\x escapes, comments, JSON literals or structure, printf directives) alone / at the "
           "start / at the end / in the middle of a text and every ordered pair of them adjacent, as string and as key, each bare "
-          "and inside a list - enumerated completely; (ii) a rapidcheck recursive generator (depth <= 6, <= 44 nodes: null, bools, boundary-biased int64, finite normal "
+          "and inside a list - enumerated completely; (ii) a rapidcheck recursive generator (depth <= 6, <= 44 nodes: null, bools, boundary-biased int64 - one in six of the form +-(10^k + d) / +-(16^k + d) with |d| drawn up to 3 / 70 / 600 / 5000 -, finite normal "
           "doubles from random bit patterns / 1..6 digits x 10^e with e in [-307,302] / a special list, byte strings and keys over all 256 "
           "values with boosted quote, backslash, control bytes, 0x7F, 0x80-0xFF and the empty string, one string/key in five with 1..3 "
           "of the well-known sequences spliced in at the start / end / a random position, empty containers); (iii) a chain "
